@@ -9,7 +9,8 @@ ADDR_P = ["any", "host", "wild:0.0.0.255", "wild:0.0.1.3", "wild:0.0.0.1", "pref
 ADDR_G = ["groupm:0.0.0.255", "groupm:0.0.0.0+0.0.1.3", "groupm:0.0.0.0+0.0.0.0", "group"]
 PORT_P = ["none", "eq1", "eq2", "range", "gt", "lt", "neq1"]
 PROTO_P = ["ip", "tcp", "udp", "icmp"]
-FLAGS_P = [[], ["ack"], ["syn"], ["ack", "syn"]]
+FLAGS_P = [[], ["ack"], ["fin"], ["psh"], ["rst"], ["syn"], ["urg"], ["ack", "syn"], ["ack", "fin", "psh", "rst", "syn", "urg"]]
+FLAGS_X = [[], ["ack"], ["urg"], ["ack", "syn"]]       # cross-field rows
 LOG_P = ["", "log"]
 UNIVERSE = 5          # shrunk port universe 1..5 for pairs (all operands inside it: a closed small world)
 SKIPS = [[], ["addrgroup"], ["nc_wildcard"], ["addrgroup", "nc_wildcard"], ["nc_wildcard", "addrgroup"]]
@@ -98,6 +99,7 @@ def rows(t, seed, groups=True, candidates=30, bias_true=True):
     for side in ("t", "b"):
         cross[side + "sa"] = cross[side + "da"] = CROSS_ADDR + (CROSS_ADDR_G if groups else [])
         cross[side + "sp"] = cross[side + "dp"] = CROSS_PORT
+        cross[side + "flags"] = FLAGS_X
     arr, info = covering_array(cross, t=t, seed=seed, valid=cheap, candidates=candidates)
     out += arr
     if bias_true:
